@@ -50,8 +50,10 @@ import (
 	"fmt"
 	"os"
 	"path/filepath"
+	"runtime/pprof"
 	"sort"
 	"strings"
+	"sync"
 	"sync/atomic"
 	"time"
 
@@ -74,6 +76,7 @@ type caseSpec struct {
 	Main    string            `json:"main"`
 	Chain   []string          `json:"chain,omitempty"` // pom: child, parent, grandparent paths
 	Updates []updSpec         `json:"updates"`
+	Family  string            `json:"family,omitempty"`
 }
 
 // disc is one discrepancy between implementation and oracle.
@@ -95,6 +98,8 @@ func (silentLogger) Infof(string, ...any)  {}
 func (silentLogger) Info(...any)           {}
 func (silentLogger) Debugf(string, ...any) {}
 func (silentLogger) Debug(...any)          {}
+
+var stopProf = func() {}
 
 var (
 	tmpRoot     string
@@ -154,7 +159,15 @@ func caseKey(cs *caseSpec) string {
 }
 
 // execute runs one case, counts it and records violations.
+var famCount sync.Map // family -> *atomic.Int64
+
+func countFamily(f string) {
+	v, _ := famCount.LoadOrStore(f, new(atomic.Int64))
+	v.(*atomic.Int64).Add(1)
+}
+
 func execute(r *ev.Run, cs *caseSpec, run func() outcome) {
+	countFamily(cs.Kind + ":" + cs.Family)
 	var o outcome
 	if run != nil {
 		o = run()
@@ -261,6 +274,12 @@ func main() {
 		os.Exit(code)
 	}
 
+	if pf := os.Getenv("VERIF_C13_PROF"); pf != "" { // debugging aid
+		f, _ := os.Create(pf)
+		_ = pprof.StartCPUProfile(f)
+		defer pprof.StopCPUProfile()
+		stopProf = pprof.StopCPUProfile
+	}
 	r := ev.Start("C13", "exploration", 150*time.Second, 27*time.Minute)
 
 	npmDocs := genNpmDocs(r.Thorough())
@@ -312,6 +331,9 @@ func main() {
 	r.Set("pom_cases", pomCases.Load())
 	r.Set("no_update_cases", noopCases.Load())
 	r.Set("write_errors_accepted", writeErrs.Load())
+	fams := map[string]int64{}
+	famCount.Range(func(k, v any) bool { fams[k.(string)] = v.(*atomic.Int64).Load(); return true })
+	r.Set("cases_per_family", fams)
 	close(errExamples)
 	var exs []string
 	for e := range errExamples {
@@ -323,6 +345,7 @@ func main() {
 	r.Assume("each groupId:artifactId is declared once per generated pom.xml family; updates never target the <parent> reference")
 	r.Assume("Maven registry is never contacted: only local parents are generated")
 	cleanup()
+	stopProf()
 	r.Finish("for every generated manifest and every update set (<=3) addressed to requirements present in it: Write does not panic; if it returns nil every update is applied; Read(output) = Read(input) with the requested versions substituted; package.json bytes outside targeted value literals and pom.xml raw tokens outside targeted version/property elements are unchanged; no updates => output = input", done == len(items))
 }
 
